@@ -34,6 +34,18 @@ class AbstractHelp(Component):
     def _render_help(self, layout):  # type: (BlockLayout) -> None
         raise NotImplementedError()
 
+    def _format_help(self, help, **names):  # type: (str, **str) -> str
+        """
+        Replaces the placeholders of a help text.
+
+        A text that is not a valid format string (a lone brace, a placeholder
+        that is not known here) is displayed as it is.
+        """
+        try:
+            return help.format(**names)
+        except (LookupError, ValueError, AttributeError, TypeError):
+            return help
+
     def _render_arguments(
         self, layout, arguments
     ):  # type: (BlockLayout, Iterable[Argument]) -> None
